@@ -11,6 +11,8 @@ CONSTANTS
   CRProg <- L_CR
   Forms = {"fresh"}
   Colls = {}
+  LAs <- NoLA_L
+  DropOn = FALSE
   QuitOn = TRUE
   QuitDeferred = TRUE
   DefCap = 0
